@@ -12,3 +12,7 @@ check("C01", "exploration",
       "Controlled interleavings at filesystem-operation granularity inside a synctest bubble (virtual clock): 2..4 contenders with own decorated VFS over one OS directory, every backend op gated, schedules from random walk, PCT and single-preemption enumeration (bound 2 sampled in thorough). Oracles: overlap of client-boundary hold intervals; online ownership monitor of the lock directory (removal of a live non-stale incarnation by a non-creator). Only the first refuting event per schedule is judged (later ones are consequences). Two genuine defects are recorded as known findings with narrow classes.",
       "Trusted: Go's synctest bubble semantics, ext4 mkdir atomicity, the re-stamper's emulation of a filesystem clock equal to the process clock. Says nothing about NFS-like filesystems, clock skew between hosts or real scheduling latency (gate delay capped at 5 ms virtual). Held on the K schedules explored.",
       "runtime monitor over scheduler-controlled interleavings (synctest bubble + afero gate), history/ownership oracles", "DESIGN.md §4 C01, §2.3")
+check("C17", "fault_enumeration",
+      "The enumerated fault is the holder's death point: the holder is stopped right after its j-th backend operation for every j of the acquire and of ≥2 steady-state heartbeat rounds (all later operations of that actor fail without effect), under scheduler-controlled interleavings with 0..5 observers and idle previous holders, in a synctest bubble. Oracles on the virtual clock: every IsStale call that begins >2 periods after the last stamp must return true; no true while every stamp in effect is ≤2 periods old; ReleaseIfStale + TryLock then succeed. Live clause: holds of 1..500 periods with IsStale/ReleaseIfStale/TryLock(/override) pollers — never stale, never released, never taken over.",
+      "Trusted: synctest bubble semantics, the re-stamper (filesystem clock = process clock), ext4. The 'under concurrent I/O load' real-time clause is not decided (virtual time has zero scheduling latency by construction; gate delay ≤5 ms per operation).",
+      "fault enumeration (death after op j) + scheduler-controlled interleavings, online stamp/IsStale oracle on a virtual clock", "DESIGN.md §4 C17")
